@@ -745,7 +745,7 @@ void DocumentBuilder::expectation_value(const char* res, const char* type, const
         currentExpectation->status = query_status_t::Unknown;
     }
     currentExpectation->value_type = _type;
-    currentExpectation->value = value;
+    currentExpectation->value = value == nullptr ? "" : value;
 }
 
 void DocumentBuilder::expect_resource(const char* type, const char* value, const char* unit)
